@@ -9,6 +9,7 @@ func init() {
 		"attribute / map-entry / data-point order and the merging of equal resources and scopes into one message are not asserted; events, links, array values, buckets, quantiles and exemplars are compared in order",
 		"not asserted (not in the statement's list): W3C trace flag bits and tracestate of spans and links, ChildSpanCount, the exponential histogram ZeroThreshold, zipkin tags/annotations/endpoints; a span status message is compared for status Error only; remote-ness of parents and links only when the has_is_remote flag bit is set",
 		"log severity numbers outside 0..24 may arrive unchanged or as 0; an all-zero ID on the wire equals an absent one; the log record's trace flags byte is part of its trace context",
+		"metrics the OTLP transform documents as untransformable (undefined / out-of-range temporality, nil or unknown aggregation) must make Export return an error on both transports while the valid metrics of the batch still arrive and both payloads stay equal (documented best-effort upload)",
 		"zipkin: names compared case-insensitively, trace IDs as 128-bit numbers; domain restricted to start >= 1 s after the epoch, End >= Start, below year 2262 minus 1 ms (the Zipkin model rejects the rest)",
 		"domain: valid UTF-8 strings, no INVALID attribute values, non-empty keys, valid span/trace IDs for the span itself, cumulative or delta temporality; resources of a batch are distinct by attributes",
 		"the gRPC and HTTP exporters are exercised over loopback TCP with and without gzip; collectors and exporters are created once per test process",
